@@ -184,6 +184,7 @@ func indexOf(r *scn.Result, text string) int {
 }
 
 func TestRegOracleAcceptsLegalOutcomes(t *testing.T) {
+	defer noSites()() // synthetic adapter streams carry no real line numbers
 	sc := baseScenario()
 	for _, merge := range []bool{false, true} {
 		r := ideal(sc, merge)
@@ -244,6 +245,7 @@ func TestRegOracleAcceptsLegalOutcomes(t *testing.T) {
 }
 
 func TestRegOracleRejectsIllegalOutcomes(t *testing.T) {
+	defer noSites()() // synthetic adapter streams carry no real line numbers
 	sc := baseScenario()
 	base := ideal(sc, false)
 	merged := ideal(sc, true)
@@ -363,6 +365,7 @@ func TestRegOracleRejectsIllegalOutcomes(t *testing.T) {
 // Lines logged while ANOTHER goroutine changes levels may observe either
 // level; the changing goroutine's own lines are decided exactly.
 func TestRegOracleConcurrentLevelChange(t *testing.T) {
+	defer noSites()() // synthetic adapter streams carry no real line numbers
 	sc := &scn.Scenario{
 		Sched: "free", Goroutines: 2,
 		Init: []scn.Op{{K: scn.OpLevel, Sev: 1}},
@@ -416,6 +419,7 @@ func TestRegOracleConcurrentLevelChange(t *testing.T) {
 
 // Package levels: only the named package is affected, only while active.
 func TestRegOraclePkgLevels(t *testing.T) {
+	defer noSites()() // synthetic adapter streams carry no real line numbers
 	sc := &scn.Scenario{
 		Sched: "never", Goroutines: 1,
 		Init: []scn.Op{{K: scn.OpLevel, Sev: 4}, {K: scn.OpPkg, Pkgs: map[string]int{"pkga": 2, "elsewhere": 1}}},
@@ -529,6 +533,7 @@ func TestRegHelperPackagesLineIdentical(t *testing.T) {
 // the trace once with all collected lines — in both orders. (Seeded change
 // C20-2: Equal treated such a pair as duplicates.)
 func TestRegOraclePlainEchoOfTraceMainLine(t *testing.T) {
+	defer noSites()() // synthetic adapter streams carry no real line numbers
 	sc := &scn.Scenario{
 		Sched: "never", Goroutines: 1,
 		Init: []scn.Op{{K: scn.OpLevel, Sev: 1}},
@@ -590,6 +595,7 @@ func TestRegOraclePlainEchoOfTraceMainLine(t *testing.T) {
 // directions, and the message must carry the caller's file. (Seeded change
 // C20-4: Warningf delegated to Warning; the extra frame made log/trace.go the origin.)
 func TestRegOraclePrintfStyleTracerOrigin(t *testing.T) {
+	defer noSites()() // synthetic adapter streams carry no real line numbers
 	sc := &scn.Scenario{
 		Sched: "never", Goroutines: 1,
 		Init: []scn.Op{{K: scn.OpLevel, Sev: 3}, {K: scn.OpPkg, Pkgs: map[string]int{"pkga": 5}}},
@@ -649,6 +655,7 @@ func TestRegOraclePrintfStyleTracerOrigin(t *testing.T) {
 // legally keep lines until Shutdown; a slow adapter is only allowed a bounded total time.
 // (Seeded change C20-5: lost wake-up of the writer.)
 func TestRegOracleSilenceClause(t *testing.T) {
+	defer noSites()() // synthetic adapter streams carry no real line numbers
 	mk := func(sched string, silence int) *scn.Scenario {
 		return &scn.Scenario{
 			Sched: sched, Goroutines: 1, AdapterPace: 4, PaceUs: 1000,
@@ -690,4 +697,12 @@ func TestRegOracleSilenceClause(t *testing.T) {
 	if r := scn.Check(big, good); r.Harness == "" {
 		t.Fatalf("pace 4 with 200 calls x 5 ms accepted")
 	}
+}
+
+
+// noSites switches the call-site distinction of the oracle off (and back on).
+func noSites() func() {
+	old := scn.SiteOfLine
+	scn.SiteOfLine = nil
+	return func() { scn.SiteOfLine = old }
 }
